@@ -38,8 +38,6 @@ def outcome_delta(exp, out):
         eh += ":" + str(exp.get("err", {}).get("c"))
     oh = out.get("how")
     if exp.get("how") == oh:
-        if oh == "rterror" and exp.get("err", {}).get("ln") != out.get("line"):
-            return "%s>%s!line" % (eh, oh)
         return "%s>%s!value" % (eh, oh)
     return "%s>%s" % (eh, oh)
 
